@@ -218,6 +218,18 @@ def gen_case(seed, tier):
                 known[0].append(nm)
                 pow_terms += [('get', 0, nm), as_term(e)]
         pow_terms += [('get', 0, 'pc'), ('get', 0, 'half')]
+    # stratum: products and quotients of two USER units that share their base unit (cm * mm is an area, cm / mm a number)
+    if rng.random() < 0.35:
+        st_ = rng.randrange(nstores)
+        b_ = rng.choice(['metre', 'second', 'volt'])
+        for nm_, e in (('ucm', ('mul', ('ref', b_), ('num', '0.01'))), ('umm', ('mul', ('ref', b_), ('num', '0.001'))),
+                       ('uarea', ('mul', ('ref', 'ucm'), ('ref', 'umm'))), ('uratio', ('div', ('ref', 'ucm'), ('ref', 'umm'))),
+                       ('uvol', ('mul', ('mul', ('ref', 'ucm'), ('ref', 'umm')), ('ref', 'ucm')))):
+            if nm_ not in known[st_]:
+                ops.append(['add', st_, nm_, e])
+                known[st_].append(nm_)
+        pow_terms += [('get', st_, 'uarea'), ('pow', ('get', st_, b_), '2'), ('get', st_, 'uratio'), ('get', st_, 'dimensionless'),
+                      ('get', st_, 'uvol'), ('pow', ('get', st_, b_), '3'), ('get', st_, b_), ('mul', ('get', st_, 'ucm'), ('get', st_, 'umm'))]
     # stratum: a unit named X and then one named Xs in the same store (pint would read an unknown "Xs" as the plural of X)
     if rng.random() < 0.35:
         st_ = rng.randrange(nstores)
